@@ -6,21 +6,26 @@ package tracing
 // verified properties speak about (listed as trusted in every evidence file that uses them).
 
 //@ func (*TracerComponent).StartOpTelemeteryHandler
+//@ params tc service operation traceContext observerLabels
 //@ trusted
 //@ modifies nothing
 
 //@ func (*opTelemetryHandler).RootContext
+//@ params oth
 //@ trusted
 //@ modifies nothing
 
 //@ func (*opTelemetryHandler).Finish
+//@ params oth
 //@ trusted
 //@ modifies nothing
 
 //@ func NewObserverLabels
+//@ params vbID collectionIDs
 //@ trusted
 //@ modifies nothing
 
 //@ func (*TracerComponent).NewListenerTracerComponent
+//@ params tc opTracerContext
 //@ trusted
 //@ modifies nothing
